@@ -268,7 +268,7 @@ Section World.
           rewrite (locked_noop now s o Hl Hg); unfold oracle_step; cbn [s_op s_obs s_reply];
           rewrite obs_of_locked, Hl, Hg; cbn [andb]; rewrite untouched_refl; reflexivity
         | destruct (step now s o) as [s' r]; cbn [fst] in Hfr; unfold oracle_step; cbn [s_op s_obs s_reply];
-          rewrite !obs_of_locked, Hg, Hfr; apply Bool.eqb_reflx ]
+          rewrite !obs_of_locked, Hg, Hfr, Bool.eqb_reflx; reflexivity ]
       end; fail).
     - (* Lock *)
       unfold oracle_step; cbn [Shim.step]. destruct (locked s) eqn:Hl.
@@ -301,6 +301,13 @@ Section World.
         destruct (upass (ua s)) as [q|] eqn:Hq; try destruct (list_eqb N.eqb p q) eqn:He;
           cbn; rewrite ?Hl, ?Hq; unfold same_stores; cbn; refl_eqbs; cbn;
           rewrite ?pass_eqb_some, ?pass_eqb_some_none, ?He; cbn; rewrite ?orb_true_r; reflexivity.
+    - (* Forward: relayed, nothing the shim holds moves *)
+      pose proof (step_locked_frame info script now s (Forward raw len rlen)) as Hfr; cbn beta iota in Hfr.
+      pose proof (forward_stores now s raw len rlen) as [Hst _]. unfold stores in Hst.
+      destruct (step now s (Forward raw len rlen)) as [s' r]. cbn [fst] in *.
+      injection Hst as Hm Hc Hi.
+      unfold oracle_step; cbn [s_op s_obs s_reply guarded]. rewrite !obs_of_locked, andb_false_r, Hfr, Bool.eqb_reflx.
+      cbn [o_mem o_cache o_ids obs_of andb]. rewrite Hm, Hc, Hi, !listN_eqb_refl. reflexivity.
   Qed.
 
   Lemma oracle_model s h : oracle script (obs_of s) (model_steps info script s h) = true.
